@@ -59,19 +59,6 @@ theorem settle_w {s s' : St} (h : settle s = some s') : s'.w = s.w := by
 
 /-! ### the four helpers that touch `w` -/
 
-theorem claimBoostedYields_winv {s s' : St} {u r : Nat} (hI : WInv s)
-    (h : claimBoostedYields s u = some (s', r)) : WInv s' := by
-  unfold claimBoostedYields at h
-  split at h
-  · simp only [Option.some.injEq, Prod.mk.injEq] at h
-    obtain ⟨rfl, _⟩ := h; exact hI
-  · simp only [Option.bind_eq_bind, Option.bind_eq_some_iff, Option.pure_def, Option.some.injEq,
-      Prod.mk.injEq] at h
-    obtain ⟨W, hW, mem, _, ⟨g', c', rl⟩, hx, rfl, _⟩ := h
-    have hp := week_pos hW
-    exact ⟨Weekly.claimMulti_GInv (boostedRewards_frame _ _) hp hI.1 hx,
-      Weekly.claimMulti_EB (boostedRewards_frame _ _) hp hI.1 hI.2 hx⟩
-
 theorem updateEnergyAndProgress_winv {s s' : St} {u : Nat} (hI : WInv s)
     (h : updateEnergyAndProgress s u = some s') : WInv s' := by
   simp only [updateEnergyAndProgress, Option.bind_eq_bind, Option.bind_eq_some_iff, Option.pure_def,
@@ -79,6 +66,20 @@ theorem updateEnergyAndProgress_winv {s s' : St} {u : Nat} (hI : WInv s)
   obtain ⟨W, hW, g, hg, rfl⟩ := h
   have hp := week_pos hW
   exact ⟨Weekly.updateEnergyAndProgress_GInv hp hI.1 hg, Weekly.updateEnergyAndProgress_EB hp hI.1 hI.2 hg⟩
+
+theorem claimBoostedYields_winv {s s' : St} {u r : Nat} (hI : WInv s)
+    (h : claimBoostedYields s u = some (s', r)) : WInv s' := by
+  have h0 := h
+  unfold claimBoostedYields at h
+  split at h
+  · rename_i hc
+    exact updateEnergyAndProgress_winv hI (claimBoostedYields_none_spec hc h0).2
+  · simp only [Option.bind_eq_bind, Option.bind_eq_some_iff, Option.pure_def, Option.some.injEq,
+      Prod.mk.injEq] at h
+    obtain ⟨W, hW, mem, _, ⟨g', c', rl⟩, hx, rfl, _⟩ := h
+    have hp := week_pos hW
+    exact ⟨Weekly.claimMulti_GInv (boostedRewards_frame _ _) hp hI.1 hx,
+      Weekly.claimMulti_EB (boostedRewards_frame _ _) hp hI.1 hI.2 hx⟩
 
 theorem updateEnergyForUser_winv {s s' : St} {u : Nat} (hI : WInv s)
     (h : updateEnergyForUser s u = some s') : WInv s' := by
